@@ -141,7 +141,7 @@ def run_base_large(cases):
         ops = [
             lambda: matrix(0.0, (big(), rnd.choice([0, 1, 2, big()]))),
             lambda: matrix(0, (rnd.choice([65536, 46341, 2 ** 16 + 1]), rnd.choice([65536, 46341, 2 ** 16 + 1])), "i")[5],
-            lambda: spmatrix(1.0, [0], [0], (big(), rnd.choice([1, 2, big()]))),
+            lambda: spmatrix(1.0, [0], [0], (big(), rnd.choice([1, 2]))),          # (a huge number of COLUMNS legitimately allocates and fills a huge colptr)
             lambda: A[big()],
             lambda: A[big(), 0],
             lambda: A.__setitem__(big(), 1.0),
@@ -160,14 +160,14 @@ def run_base_large(cases):
             lambda: base.syrk(S, matrix(0.0, (2, 2)), n=big(), k=big()),
             lambda: base.axpy(S, spmatrix([], [], [], (2, 3)), alpha=2.0) or base.axpy(A, matrix(0.0, (2, 3))),
             lambda: setattr(A, "size", (big(), big())),
-            lambda: setattr(S, "size", (big(), rnd.choice([1, big()]))),
+            lambda: setattr(S, "size", (big(), 1)),
             lambda: A * big(),
             lambda: matrix(range(3)) ** big() if False else A[::big()],
             lambda: base.sqrt(matrix([1.0]), ) and base.pow(matrix([2.0]), 2.0),
             lambda: matrix([1, 2, 3])[big():big():big()],
             lambda: sparse([[S], [S]])[big()],
             lambda: spmatrix([1.0, 2.0], [0, big()], [0, 0], (2, 1)),
-            lambda: spmatrix([1.0, 2.0], [0, 1], [0, big()]),
+            lambda: spmatrix([1.0, 2.0], [0, 1], [0, rnd.choice([2147483646, 1073741824, -1, -2147483648, 2 ** 62])]),    # (mid-size values legitimately allocate)
             lambda: base.spdiag([1.0, 2.0])[big(), big()],
         ]
         o = {"k": k}
@@ -176,6 +176,111 @@ def run_base_large(cases):
             op()
             o["raised"] = "none"
         except BaseException as e:     # noqa
+            o["raised"] = type(e).__name__
+        res.append(o)
+    return res
+
+
+def misc_cases(rnd, n):
+    fs = ["sprod", "sinv", "max_step", "pack", "pack2", "unpack", "symm", "trisc", "triusc", "sdot", "scale2", "scale"]
+    return [{"f": fs[i % len(fs)], "seed": rnd.randrange(1 << 30), "valid": (i // len(fs)) % 2 == 0} for i in range(n)]
+
+
+def run_misc(cases):
+    """cvxopt.misc_solvers with consistent arguments (valid) and with a vector that is shorter than dims requires (invalid)"""
+    from cvxopt import matrix, misc, misc_solvers as ms
+    res = []
+    for c in cases:
+        rnd = random.Random(c["seed"])
+        dims = {"l": rnd.randint(0, 2), "q": [rnd.randint(1, 3) for _ in range(rnd.randint(0, 2))], "s": [rnd.randint(0, 2) for _ in range(rnd.randint(0, 2))]}
+        N = dims["l"] + sum(dims["q"]) + sum(k * k for k in dims["s"])
+        Np = dims["l"] + sum(dims["q"]) + sum(k * (k + 1) // 2 for k in dims["s"])
+        Nl = dims["l"] + sum(dims["q"]) + sum(dims["s"])
+        def interior():
+            v = []
+            v += [1.0 + rnd.random() for _ in range(dims["l"])]
+            for q in dims["q"]:
+                v += [2.0 + q] + [rnd.uniform(-0.5, 0.5) for _ in range(q - 1)]
+            for k in dims["s"]:
+                v += [(2.0 if i == j else 0.1) for j in range(k) for i in range(k)]
+            return matrix(v, (N, 1), "d")
+        cut = 0 if c["valid"] else rnd.randint(1, max(1, N))
+        def vec(n_=None):
+            v = interior()
+            n_ = N if n_ is None else n_
+            return matrix(list(v)[:max(0, n_)], (max(0, n_), 1), "d")
+        x, y = vec(N - cut), vec()
+        f = c["f"]
+        o = {"f": f, "valid": c["valid"] or N == 0 or cut == 0}
+        try:
+            if N == 0 and f in ("scale", "scale2"):
+                o["raised"] = "skipped"
+            elif f == "sprod": ms.sprod(x, y, dims)
+            elif f == "sinv": ms.sinv(x, y, dims)
+            elif f == "max_step": ms.max_step(x, dims)
+            elif f == "pack": ms.pack(x, matrix(0.0, (Np, 1)), dims)
+            elif f == "pack2": ms.pack2(x, dims)
+            elif f == "unpack": ms.unpack(matrix(1.0, (max(0, Np - cut), 1)), matrix(0.0, (N, 1)), dims)
+            elif f == "symm": ms.symm(matrix(1.0, (max(0, 9 - (0 if c["valid"] else 4)), 1)), 3)
+            elif f == "trisc": ms.trisc(x, dims)
+            elif f == "triusc": ms.triusc(x, dims)
+            elif f == "sdot": ms.sdot(x, y, dims)
+            elif f == "scale2": ms.scale2(matrix(1.5, (Nl, 1)), x, dims)
+            elif f == "scale":
+                W = misc.compute_scaling(interior(), interior(), matrix(0.0, (Nl, 1)), dims)
+                ms.scale(x, W)
+            o.setdefault("raised", "none")
+        except Exception as e:    # noqa
+            o["raised"] = type(e).__name__
+        res.append(o)
+    return res
+
+
+def shape_cases(rnd, n):
+    return [{"seed": rnd.randrange(1 << 30), "k": i % 6} for i in range(n)]
+
+
+def run_shapes(cases):
+    """base.gemm / syrk / gemv / symv / axpy with dense and sparse operands of random (mostly mismatched) small shapes, empty ones included"""
+    from cvxopt import matrix, sparse, base
+    res = []
+    for c in cases:
+        rnd = random.Random(c["seed"])
+        tc = rnd.choice(["d", "z"])
+        def M(r=None, cc=None):
+            r = rnd.randint(0, 3) if r is None else r
+            cc = rnd.randint(0, 3) if cc is None else cc
+            A = matrix([complex(rnd.randint(-2, 2), rnd.randint(-1, 1) if tc == "z" else 0) if tc == "z" else float(rnd.randint(-2, 2)) for _ in range(r * cc)], (r, cc), tc)
+            return sparse(A) if rnd.random() < 0.5 else A
+        k = c["k"]
+        o = {"k": k}
+        try:
+            if k == 0:
+                base.gemm(M(), M(), M(), transA=rnd.choice("NTC"), transB=rnd.choice("NTC"), partial=rnd.random() < 0.3)
+            elif k == 1:
+                m, kk, n = rnd.randint(0, 3), rnd.randint(0, 3), rnd.randint(0, 3)
+                base.gemm(M(m, kk), M(kk, n), M(m, n), alpha=2.0, beta=rnd.choice([0.0, 1.0]), partial=rnd.random() < 0.3)
+            elif k == 2:
+                base.syrk(M(), M(), uplo=rnd.choice("LU"), trans=rnd.choice("NT"), partial=rnd.random() < 0.3)
+            elif k == 3:
+                A = M()
+                x = matrix(1.0, (rnd.randint(0, 4), 1), tc)
+                y = matrix(1.0, (rnd.randint(0, 4), 1), tc)
+                kw = {}
+                for key, vals in (("m", [-1, 0, 1, 2, 3]), ("n", [-1, 0, 1, 2, 3]), ("incx", [1, -1, 2]), ("incy", [1, -1, 2]), ("offsetA", [0, 1, 2, 5]), ("offsetx", [0, 1]), ("offsety", [0, 1])):
+                    if rnd.random() < 0.4:
+                        kw[key] = rnd.choice(vals)
+                base.gemv(A, x, y, trans=rnd.choice("NTC"), **kw)
+            elif k == 4:
+                n = rnd.randint(0, 3)
+                A = M(n, rnd.choice([n, n, rnd.randint(0, 3)]))
+                if tc == "z":
+                    A = +A
+                base.symv(A, matrix(1.0, (rnd.randint(0, 4), 1), tc), matrix(1.0, (rnd.randint(0, 4), 1), tc), uplo=rnd.choice("LU"))
+            else:
+                base.axpy(M(), M(), alpha=2.0)
+            o["raised"] = "none"
+        except Exception as e:   # noqa
             o["raised"] = type(e).__name__
         res.append(o)
     return res
@@ -239,6 +344,14 @@ def main():
         cases = base_large_cases(rnd, n)
         out["cases"] = cases
         out["results"] = isolated(run_base_large, cases, 120, 25)
+    elif fam == "shapes":
+        cases = shape_cases(rnd, n)
+        out["cases"] = cases
+        out["results"] = isolated(run_shapes, cases, 120, 25)
+    elif fam == "misc":
+        cases = misc_cases(rnd, n)
+        out["cases"] = cases
+        out["results"] = isolated(run_misc, cases, 120, 12)
     elif fam == "dense":
         from harness.checks import c15
         cases = [c15.gen_program(rnd, rnd.randint(4, 10)) for _ in range(n)]
